@@ -33,6 +33,7 @@ import DfolsVerif.Proofs.Validate
 import DfolsVerif.Proofs.ParamTable
 import DfolsVerif.Proofs.GenSpec
 import DfolsVerif.Gen.ExitSites
+import DfolsVerif.Proofs.TrySites
 
 namespace Dfols
 namespace C07
@@ -478,6 +479,21 @@ theorem C07_src_input_checks :
 /-- input errors are created by `solve` only, and nowhere else is a check skipped by a missing `exit_info is None` -/
 theorem C07_src_input_checks_guarded : ∀ s ∈ Gen.exitSites, s.flag = "EXIT_INPUT_ERROR" →
     s.func = "solver.py:solve" ∧ s.path.head? = some ⟨true, "exit_info", "is", "None"⟩ := by
+  decide +kernel
+
+/-! ### layer G: an input error costs no evaluation -/
+
+/-- **zero evaluations on an input error, at the source** (call tables regenerated from the AST of the whole package on every run):
+    no package function reachable through the call graph from any call that `solve` makes up to and including its input-error
+    `return` calls the residual function, and none of those calls is the residual function, the regulariser, its proximal operator,
+    the `nsamples` callback, `solve_main` or `dykstra` (which calls the user's projections) — the source-level side of "a result
+    with the input-error flag and zero evaluations" -/
+theorem C07_src_no_evaluation_before_validation {f : String} (h : TrySites.Reach Gen.callEdges Gen.solvePreludeCalls f) :
+    f ∉ Gen.objfunCallers ∧ f ∉ ["objfun", "h", "prox_uh", "nsamples", "solve_main", "dykstra"] :=
+  TrySites.no_evaluation_before_validation h
+
+/-- non-vacuity: the prelude does call package functions (parameter list, scaling, exit objects) -/
+example : "check_all_params" ∈ Gen.solvePreludeCalls ∧ "apply_scaling" ∈ Gen.solvePreludeCalls ∧ TrySites.preludeReach.length > 28 := by
   decide +kernel
 
 end C07
